@@ -1,4 +1,5 @@
 import JugModel.Model.Loader
+import JugModel.Model.Reload
 /-!
 # C14 - nothing after a barrier runs before everything before it is complete
 -/
@@ -189,5 +190,136 @@ example : load (fun _ => none) exJ [] = ⟨[0, 1], true⟩ := by decide
 example : load (fun k => if k ≤ 1 then some 2 else none) exJ [] = ⟨[0, 1, 2, 3], false⟩ := by decide
 example : WFJ exJ [] := by simp [exJ, WFJ]; intro v; split <;> simp [WFJ]
 end Example
+
+/-! ### the reload loop of `jug execute` (Model/Reload.lean): it keeps reloading as long as this worker makes progress -/
+section ReloadLoop
+open Jug.Reload
+
+theorem loop_passes_le (n : Nat) (ps : List Pass) : ∀ np, (loop n np ps).1 ≤ ps.length := by
+  induction ps with
+  | nil => intro np; simp [loop]
+  | cons p rest ih =>
+    intro np
+    simp only [loop]
+    split
+    · split
+      · simp
+      · simp only [List.length_cons]; exact Nat.succ_le_succ (ih _)
+    · simp
+
+/-- **any number of barrier phases**: while every pass executes something, the loop goes on - however long the list of phases
+    and whatever `--nr-wait-cycles` (> 0) is -/
+theorem keeps_reloading (n : Nat) (ps : List Pass) (hp : ∀ p ∈ ps, p.executed ≠ 0 ∧ p.barrier = true) :
+    ∀ np, np < n → loop n np ps = (ps.length, none) := by
+  induction ps with
+  | nil => intro np h; simp [loop, h]
+  | cons p rest ih =>
+    intro np h
+    have hp0 := hp p (by simp)
+    have hn : 0 < n := by omega
+    simp only [loop, h, if_true, hp0.2, Bool.not_true, Bool.false_eq_true, if_false, hp0.1, List.length_cons]
+    rw [ih (fun q hq => hp q (by simp [hq])) 0 hn]
+
+/-- ... and it stops with the complete program at the first pass that loads the jugfile to its end -/
+theorem completes (n : Nat) (pre : List Pass) (last : Pass) (hp : ∀ p ∈ pre, p.executed ≠ 0 ∧ p.barrier = true)
+    (hl : last.barrier = false) : ∀ np, np < n → loop n np (pre ++ [last]) = (pre.length + 1, some .done) := by
+  induction pre with
+  | nil => intro np h; simp [loop, h, hl]
+  | cons p rest ih =>
+    intro np h
+    have hp0 := hp p (by simp)
+    have hn : 0 < n := by omega
+    simp only [List.cons_append, loop, h, if_true, hp0.2, Bool.not_true, Bool.false_eq_true, if_false, hp0.1, List.length_cons]
+    rw [ih (fun q hq => hp q (by simp [hq])) 0 hn]
+
+/-- the loop ends by `break` only at a pass without pending barrier, all earlier passes having stopped at one -/
+theorem done_only_when_open (n : Nat) (ps : List Pass) : ∀ np k, loop n np ps = (k, some .done) →
+    ∃ pre last post, ps = pre ++ last :: post ∧ k = pre.length + 1 ∧ last.barrier = false ∧ ∀ p ∈ pre, p.barrier = true := by
+  induction ps with
+  | nil => intro np k h; simp only [loop] at h; split at h <;> simp at h
+  | cons p rest ih =>
+    intro np k h
+    simp only [loop] at h
+    split at h
+    · split at h
+      · rename_i hb
+        simp only [Prod.mk.injEq, and_true] at h
+        exact ⟨[], p, rest, rfl, by simp [← h], by simpa using hb, by simp⟩
+      · rename_i hb
+        simp only [Prod.mk.injEq] at h
+        obtain ⟨pre, last, post, h1, h2, h3, h4⟩ := ih _ (loop n (if p.executed = 0 then np + 1 else 0) rest).1 (Prod.ext rfl h.2)
+        refine ⟨p :: pre, last, post, by simp [h1], by simp [← h.1, h2], h3, ?_⟩
+        intro q hq
+        rcases List.mem_cons.mp hq with rfl | hq
+        · simpa using hb
+        · exact h4 q hq
+    · simp at h
+
+/-- **giving up needs `--nr-wait-cycles` consecutive idle passes**: when the loop ends with "No tasks can be run!" after `k`
+    passes, the last `m` of them (for some `m`) were all idle - nothing executed, barrier pending - and `m` (plus the initial
+    count, if every pass was idle) reaches `n` -/
+theorem gaveUp_general (n : Nat) (ps : List Pass) : ∀ np k, loop n np ps = (k, some .gaveUp) →
+    ∃ m, m ≤ k ∧ (∀ p ∈ (ps.take k).drop (k - m), p.idle = true) ∧ n ≤ m + (if m = k then np else 0) := by
+  induction ps with
+  | nil =>
+    intro np k h
+    simp only [loop] at h
+    split at h
+    · simp at h
+    · simp only [Prod.mk.injEq, and_true] at h
+      exact ⟨0, by omega, by simp, by simp [← h]; omega⟩
+  | cons p rest ih =>
+    intro np k h
+    simp only [loop] at h
+    split at h
+    · split at h
+      · simp at h
+      · rename_i hlt hb
+        simp only [Prod.mk.injEq] at h
+        have hb' : p.barrier = true := by simpa using hb
+        obtain ⟨m', hm', hall, hn⟩ := ih _ (loop n (if p.executed = 0 then np + 1 else 0) rest).1 (Prod.ext rfl h.2)
+        generalize hk' : (loop n (if p.executed = 0 then np + 1 else 0) rest).1 = k' at *
+        have hk : k = k' + 1 := h.1.symm
+        subst hk
+        by_cases hmk : m' = k'
+        · subst hmk
+          simp only [if_true] at hn
+          by_cases he : p.executed = 0
+          · simp only [he, if_true] at hn
+            refine ⟨m' + 1, Nat.le_refl _, ?_, by simp; omega⟩
+            intro q hq
+            simp only [Nat.sub_self, List.drop_zero, List.take_succ_cons, List.mem_cons] at hq hall
+            rcases hq with rfl | hq
+            · simp [Pass.idle, he, hb']
+            · exact hall q hq
+          · simp only [he, if_false, Nat.add_zero] at hn
+            refine ⟨m', by omega, ?_, by simp; omega⟩
+            intro q hq
+            have : m' + 1 - m' = 1 := by omega
+            simp only [this, List.take_succ_cons, List.drop_succ_cons, List.drop_zero] at hq
+            simp only [Nat.sub_self, List.drop_zero] at hall
+            exact hall q hq
+        · simp only [hmk, if_false, Nat.add_zero] at hn
+          have hne : m' ≠ k' + 1 := by omega
+          refine ⟨m', by omega, ?_, by simp only [hne, if_false]; omega⟩
+          intro q hq
+          have : k' + 1 - m' = (k' - m') + 1 := by omega
+          simp only [this, List.take_succ_cons, List.drop_succ_cons] at hq
+          exact hall q hq
+    · rename_i hge
+      simp only [Prod.mk.injEq, and_true] at h
+      exact ⟨0, by omega, by simp, by simp [← h]; omega⟩
+
+/-- from a fresh start: the last `n` passes (at least) were all idle -/
+theorem gaveUp_after_idle (n : Nat) (ps : List Pass) (k : Nat) (h : loop n 0 ps = (k, some .gaveUp)) :
+    ∃ m, n ≤ m ∧ m ≤ k ∧ ∀ p ∈ (ps.take k).drop (k - m), p.idle = true := by
+  obtain ⟨m, h1, h2, h3⟩ := gaveUp_general n ps 0 k h
+  refine ⟨m, ?_, h1, h2⟩
+  split at h3 <;> omega
+
+/-! non-vacuity: 5 progressing phases with `--nr-wait-cycles 2`; and giving up after two idle passes -/
+example : loop 2 0 ((List.replicate 5 ⟨1, true⟩) ++ [⟨1, false⟩]) = (6, some .done) := by decide
+example : loop 2 0 [⟨1, true⟩, ⟨0, true⟩, ⟨3, true⟩, ⟨0, true⟩, ⟨0, true⟩, ⟨1, true⟩] = (5, some .gaveUp) := by decide
+end ReloadLoop
 
 end Jug.C14
